@@ -151,7 +151,7 @@ func cmdCheck(args []string) int {
 			sem <- struct{}{}
 			defer func() { <-sem }()
 			r := w.Generate(h)
-			r.PrepareAll(180)
+			r.PrepareAll(300)
 			results[i] = r
 		}(i, h)
 	}
@@ -196,8 +196,14 @@ func cmdCheck(args []string) int {
 	// times the budget (a time-out is a property of the machine's load, not of the code; "failed" answers are final)
 	for _, o := range all {
 		if o.Status == "undecided" {
-			o.Status = ""
 			o.Retried = true
+			if !o.RetryPrepare(600) {
+				continue
+			}
+			if o.Status == "discharged" || o.Status == "vacuous" {
+				continue // settled by the simplifier while preparing
+			}
+			o.Status = ""
 			o.Discharge(smt.DefaultSolvers(*timeout*3), tmp, *timeout*3, 1)
 			if o.Status == "discharged" || o.Status == "covered" {
 				o.Solver += " (retried alone)"
